@@ -20,7 +20,10 @@ by the C++ harness):
     order = `-` | i(,i)*          original positions (0-based) in processing order
 Reply:
   sort  → `out i:pos:last(,i:pos:last)* evals=<m> pure=<same|DIFF> spec=<verdict>` (`out -` for no nodes)
-          `err` when decoding an xsl:sort raises an error (only reached with more than one node)
+          `err` when decoding an xsl:sort raises an error (only reached with more than one node), or when the last key
+          token is `BOOM` (key expression raising a run-time error; reached iff two nodes tie on all keys before it) or
+          `AVTBOOM` (its order AVT raises).  The driver threads ONE `Sorter` through all `sort`/`sortu` lines of a stream,
+          like the transformer's execution context does.
   check → `ok` | `bad …`
 -/
 open XalanModel.C16
@@ -56,7 +59,10 @@ def parseVal (key : Key) (s : String) : Option Val :=
 
 def parseRow (keys : List Key) (s : String) : Option (List Val) :=
   let parts := s.splitOn ","
-  if parts.length ≠ keys.length then none else (keys.zip parts).mapM fun (k, p) => parseVal k p
+  -- a trailing `x` column belongs to the aborting key
+  let parts := if parts.length = keys.length + 1 && parts.getLast? = some "x" then parts.dropLast else parts
+  if keys.isEmpty && parts = [""] then some []
+  else if parts.length ≠ keys.length then none else (keys.zip parts).mapM fun (k, p) => parseVal k p
 
 def parseMatrix (s : String) : Option (List Int) :=
   s.toList.mapM fun c => if c = '-' then some (-1) else if c = '0' then some 0 else if c = '+' then some 1 else none
@@ -64,6 +70,8 @@ def parseMatrix (s : String) : Option (List Int) :=
 def isqrt (n : Nat) : Nat := ((List.range (n + 1)).find? fun m => m * m ≥ n).getD 0
 
 structure Case where
+  /-- a last xsl:sort whose key expression (`BOOM`) or whose order AVT (`AVTBOOM`) raises a run-time error when evaluated -/
+  boom : Option Bool := none
   raws : List RawSort
   /-- decoded keys; `none` = sortChildren raises an error -/
   keys? : Option (List Key)
@@ -78,11 +86,17 @@ def Case.keys (c : Case) : List Key := c.keys?.getD []
 def intended (r : RawSort) : Key := ⟨r.dataType == some "number", r.order == some "descending"⟩
 
 def parseCase (keys n vals : String) : Option Case := do
+  let toks := if keys = "-" then [] else keys.splitOn ","
+  let boom : Option Bool := match toks.getLast? with
+    | some "BOOM" => some false
+    | some "AVTBOOM" => some true
+    | _ => none
+  let keys := if boom.isSome then (if toks.length ≤ 1 then "-" else ",".intercalate toks.dropLast) else keys
   let raws ← parseList "," parseRaw keys
   let n ← n.toNat?
   let rows ← parseList ";" (parseRow (raws.map intended)) vals
   if rows.length ≠ n then none
-  else some ⟨raws, decodeSorts raws, n, (rows.map List.toArray).toArray, none⟩
+  else some ⟨boom, raws, decodeSorts raws, n, (rows.map List.toArray).toArray, none⟩
 
 def parseCaseU (keys n vals mat : String) : Option Case := do
   let c ← parseCase keys n vals
@@ -104,24 +118,40 @@ def Case.env (c : Case) : Env Nat where
 def showTriples (l : List (Nat × Nat × Nat)) : String :=
   if l.isEmpty then "-" else ",".intercalate (l.map fun (i, p, n) => s!"{i}:{p}:{n}")
 
-def doSort (c : Case) : String :=
+def doSort (st : Sorter Nat) (c : Case) : Sorter Nat × String :=
   let env := c.env
   let nodes := List.range c.n
   -- ElemForEach: sortChildren (decode + sort) only with xsl:sort children and more than one node
-  if c.raws.length > 0 && nodes.length > 1 then
+  if (c.raws.length > 0 || c.boom.isSome) && nodes.length > 1 then
     match c.keys? with
-    | none => "err"
+    | none => (st, "err")
     | some keys =>
-      let pure := selectAndSort env keys nodes
-      -- the cache-threading insertion sort is quadratic (and its rows are lists): beyond 400 nodes use the
-      -- merge-sort model it is proved equal to (Props.C16.sortNodesM_eq_sortNodes)
-      let (caches, sorted) := if c.n ≤ 400 then sortNodesM env keys nodes else (Caches.empty, pure)
-      let verdict := specVerdict (fun a b => specCompare env keys 0 a b) c.n sorted
-      -- the libstdc++-shaped algorithm must agree as well (Props.C16.libStableSort_contract)
-      let lib := sortNodesLib env keys nodes
-      s!"out {showTriples (process sorted)} evals={caches.numEvals.length + caches.strEvals.length} pure={if pure = sorted && lib = sorted then "same" else "DIFF"} spec={verdict}"
+      -- the aborting xsl:sort: its order AVT is evaluated while the keys are collected; its key expression is
+      -- evaluated when a comparison reaches it, i.e. when two nodes tie on all keys before it
+      let aborts := match c.boom with
+        | some true => true
+        | some false => existsTie env keys nodes
+        | none => false
+      if aborts then
+        -- the exception leaves the sort with the caches in some populated state; the guards clear them
+        let populated := (isortM env keys nodes.length (scratch nodes) st.caches).1
+        ((sortOnce env keys nodes (some populated) st).1, "err")
+      else
+        let pure := selectAndSort env keys nodes
+        -- the cache-threading insertion sort is quadratic (and its rows are lists): beyond 400 nodes use the
+        -- merge-sort model it is proved equal to (Props.C16.sortNodesM_eq_sortNodes)
+        let (st', sorted, evals) :=
+          if c.n ≤ 400 then
+            let r := sortOnce env keys nodes none st
+            let caches := (isortM env keys nodes.length (scratch nodes) st.caches).1
+            (r.1, r.2.getD [], caches.numEvals.length + caches.strEvals.length)
+          else (st, pure, 0)
+        let verdict := specVerdict (fun a b => specCompare env keys 0 a b) c.n sorted
+        -- the libstdc++-shaped algorithm must agree as well (Props.C16.libStableSort_contract)
+        let lib := sortNodesLib env keys nodes
+        (st', s!"out {showTriples (process sorted)} evals={evals} pure={if pure = sorted && lib = sorted then "same" else "DIFF"} spec={verdict}")
   else
-    s!"out {showTriples (process nodes)} evals=0 pure=same spec=ok"
+    (st, s!"out {showTriples (process nodes)} evals=0 pure=same spec=ok")
 
 def doCheck (c : Case) (o : List Nat) : String :=
   if c.raws.isEmpty || c.n ≤ 1 then (if o = List.range c.n then "ok" else "bad order-changed-without-sorting")
@@ -129,33 +159,33 @@ def doCheck (c : Case) (o : List Nat) : String :=
     | none => "bad expected-error"
     | some keys => specVerdict (fun a b => specCompare c.env keys 0 a b) c.n o
 
-def step (_ : Unit) : List String → Unit × String
+def step (st : Sorter Nat) : List String → Sorter Nat × String
   | "sort" :: keys :: n :: vals :: _ =>
     match parseCase keys n vals with
-    | none => ((), "bad-request")
-    | some c => ((), doSort c)
+    | none => (st, "bad-request")
+    | some c => doSort st c
   | "sortu" :: keys :: n :: vals :: mat :: _ =>
     match parseCaseU keys n vals mat with
-    | none => ((), "bad-request")
-    | some c => ((), doSort c)
+    | none => (st, "bad-request")
+    | some c => doSort st c
   | ["check", keys, n, vals, order] =>
     match parseCase keys n vals, parseList "," String.toNat? order with
-    | some c, some o => ((), doCheck c o)
-    | _, _ => ((), "bad-request")
+    | some c, some o => (st, doCheck c o)
+    | _, _ => (st, "bad-request")
   | ["checku", keys, n, vals, mat, order] =>
     match parseCaseU keys n vals mat, parseList "," String.toNat? order with
-    | some c, some o => ((), doCheck c o)
-    | _, _ => ((), "bad-request")
+    | some c, some o => (st, doCheck c o)
+    | _, _ => (st, "bad-request")
   | ["collcheck", mat] =>
     match parseMatrix mat with
     | some m =>
       let k := isqrt m.length
-      ((), if k * k ≠ m.length then "bad-request"
+      (st, if k * k ≠ m.length then "bad-request"
            else if tableOk k (fun i j => m.getD (i * k + j) 0) then "ok" else "bad not-a-three-way-total-preorder")
-    | none => ((), "bad-request")
-  | "coll" :: _ => ((), "-")
-  | _ => ((), "bad-request")
+    | none => (st, "bad-request")
+  | "coll" :: _ => (st, "-")
+  | _ => (st, "bad-request")
 
 end Driver.C16
 
-def main : IO Unit := Driver.run () Driver.C16.step
+def main : IO Unit := Driver.run ({} : XalanModel.C16.Sorter Nat) Driver.C16.step
